@@ -43,7 +43,7 @@ REQUIRED_PROBES = ['n_%d' % k for k in range(2, 9)] + [
     'duplicate_signature_publication', 'partition_healed', 'with_refund_keys',
     'refund_after_timeout', 'refund_before_timeout', 'cascade_completed',
     'corrupt_adapter_rejected', 'corrupt_publication_rejected', 'view_corrupted_probe',
-    'same_seed_other_length']
+    'same_seed_other_length', 'seedless_setup']
 RTO = 400           # ms, retransmission timeout of the party stubs
 BASE = 20           # ms, base one-way latency
 HORIZON = 120_000   # ms of simulated time per run at most
@@ -57,7 +57,8 @@ def gen_plan(run_seed, idx, tier):
     refund = rng.chance(1, 3)
     chains = []
     for c in range(2 if two else 1):
-        chains.append({'seed': rng.bytes(rng.choice([16, 32])).hex(), 'n': n if c == 0 else rng.rng(2, 4),
+        chains.append({'seed': rng.bytes(rng.choice([0, 1, 16, 32, 32, 64])).hex(),
+                       'n': n if c == 0 else rng.rng(2, 4),
                        'flags': rng.choice(['00', '00', '01', '03']), 'refund': refund and c == 0,
                        'timeout': rng.choice([30, 60, 3600]),
                        'sigfields': [{'sigfield%d' % k: rng.bytes(rng.choice([4, 32])).hex()
@@ -174,12 +175,25 @@ class Chain:
         finally:
             reads = CLOCK.end_call()
         self.created = int(reads[0]) if reads else None
-        self.setup = real('AMHL.setup', AMHL.setup, self.n, seed)
-        self.views = [real('AMHL.setup_for', AMHL.setup_for, self.setup, i) for i in range(self.n + 1)]
-        self.y = list(self.setup[0])
-        self.Y = list(self.setup[1])
         self.key = self.res['key']
         self.hops = [self.res[self.pks[i]] for i in range(self.n)]     # (script1, script2, T, k)
+        if seed:
+            # a seeded setup is reproducible: the views come from the documented
+            # AMHL.setup / setup_for and must agree with what setup_amhl returned
+            self.setup = real('AMHL.setup', AMHL.setup, self.n, seed)
+            self.views = [real('AMHL.setup_for', AMHL.setup_for, self.setup, i)
+                          for i in range(self.n + 1)]
+            self.y = list(self.setup[0])
+            self.Y = list(self.setup[1])
+        else:
+            # an empty seed means "draw a fresh one": the only consistent source of
+            # the parties' views is the result of that one setup_amhl call
+            run.probe('seedless_setup')
+            self.y = [h[3] for h in self.hops]
+            self.Y = [h[2] for h in self.hops]
+            self.views = [(self.y[0],)] + \
+                [(self.Y[i - 1], self.Y[i], self.y[i]) for i in range(1, self.n)] + \
+                [((self.Y[self.n - 1], 0, 0), self.key)]
         self.claimed = {}       # hop -> (time, sig64, by)
         self.refunded = {}
         self.ledger = []        # (time, hop, kind)
@@ -719,6 +733,8 @@ def execute(plan, run):
             # the same call again returns the same tweak points and key
             if ch.spec.get('same_seed'):
                 run.probe('same_seed_other_length')
+            if not ch.spec['seed']:
+                continue        # seedless: legitimately different every time
             refunds = {ch.pks[i]: ch.rpks[i] for i in range(ch.n)} if ch.spec['refund'] else None
             again = real('setup_amhl', T.setup_amhl, bytes.fromhex(ch.spec['seed']), ch.pks[:ch.n],
                          ch.flags, refunds, ch.spec['timeout'])
